@@ -387,13 +387,31 @@ LitExact ==
     FindSub(body, LitClose(dbl), 1) = 0 =>
       LitLex(body \o LitClose(dbl) \o LitTail, dbl) = [t |-> "ok", body |-> body, rest |-> LitTail]
 
-\* <<"L", body, double-brace form?, "ok"|"unspec"|"err", output>> and once
-\* <<"LC", i, text before, text after, RuleA(before), RuleA(after)>>
+\* File-level line-end forms: the complete source with every LF written as
+\* CR LF (Windows checkout) or as a bare CR.  Nothing may treat the forms
+\* differently except the joining rule itself (to which CR, LF, CR LF are all
+\* line breaks): the expectation for a converted source is the rule applied
+\* to the converted text, and a literal body is emitted as converted.
+EolNames == {"lf", "crlf", "cr"}
+EolSeq(e) == IF e = "crlf" THEN <<CR, LF>> ELSE IF e = "cr" THEN <<CR>> ELSE <<LF>>
+RECURSIVE ConvEol(_, _)
+ConvEol(s, e) == IF s = <<>> THEN <<>>
+                 ELSE (IF s[1] = LF THEN EolSeq(e) ELSE <<s[1]>>) \o ConvEol(Tail(s), e)
+
+\* <<"L", line-end form, number of atoms, body, double-brace form?, "ok"|"unspec"|"err", output>>
+\*   (forms crlf / cr only for bodies they change), and once per form
+\* <<"LC", form, i, text before, text after, RuleA(before), RuleA(after)>>
 PrintLiteral ==
   LET body == Flat(inp) IN
-  /\ \A dbl \in BOOLEAN : LET c == LitCase(body, dbl) IN PrintT(<<"L", body, dbl, c.t, c.out>>)
-  /\ (inp = <<>> => \A i \in 1..Len(LitContexts) :
-        LET pre == ToText(LitContexts[i][1]) post == ToText(LitContexts[i][2]) IN
-        PrintT(<<"LC", i, pre, post, RuleA(pre), RuleA(post)>>))
+  /\ \A e \in EolNames : LET b == ConvEol(body, e) IN
+        (e = "lf" \/ b # body) =>
+          \A dbl \in BOOLEAN : LET c == LitCase(b, dbl) IN PrintT(<<"L", e, Len(inp), b, dbl, c.t, c.out>>)
+  /\ (inp = <<>> => \A e \in EolNames : \A i \in 1..Len(LitContexts) :
+        LET pre  == ConvEol(ToText(LitContexts[i][1]), e)
+            post == ConvEol(ToText(LitContexts[i][2]), e) IN
+        PrintT(<<"LC", e, i, pre, post, RuleA(pre), RuleA(post)>>))
+
+\* to the rule the three line-end forms of a text are the same text
+EolInvisible == tb \/ \A e \in EolNames : RuleA(ConvEol(inp, e)) = RuleA(inp)
 
 =============================================================================
